@@ -91,6 +91,12 @@ def _mk_part(pid, divs, voices, staves, octave, missing_staff=False, with_rest=T
     def extra(p, byid):
         p.add(sc.Words("espr. " + pid, staff=None if missing_staff else 1), bar // 2)
         p.add(sc.Words("dolce", staff=None if missing_staff else 1), bar)  # the same text at the same time on the same staff in EVERY part
+        # a written-out road map (segno, to coda, dal segno, coda): every part carries its own marks, and they are not on the documented
+        # list of elements that come from the first part only
+        p.add(sc.Segno(), bar // 2)
+        p.add(sc.ToCoda(), bar)
+        p.add(sc.DalSegno(), 2 * bar)
+        p.add(sc.Coda(), 2 * bar)
         p.add(sc.ConstantLoudnessDirection("p", staff=None if missing_staff else 1), 0)
         p.add(sc.ConstantLoudnessDirection("f", staff=None if missing_staff else 1), bar)
         p.add(sc.ImpulsiveLoudnessDirection("sfz", staff=None if missing_staff else 1), bar + bar // 2)
@@ -158,6 +164,7 @@ def bounded(b):
                                 "ks": [(k.start.t * (L // spec[0][0]), k.fifths) for k in parts[0].iter_all(sc.KeySignature)]}
                 words = sorted((Fraction(w.start.t, s[0]), w.text) for p, s in zip(parts, spec) for w in p.iter_all(sc.Words))
                 rests = sorted((Fraction(r.start.t, s[0]), Fraction(r.end.t - r.start.t, s[0])) for p, s in zip(parts, spec) for r in p.iter_all(sc.Rest))
+                roadmap = sorted(((cls.__name__, Fraction(o.start.t, s[0])) for cls in (sc.Segno, sc.ToCoda, sc.DalSegno, sc.Coda) for p, s in zip(parts, spec) for o in p.iter_all(cls)), key=repr)
                 dirs = sorted((type(d).__name__, d.text, Fraction(d.start.t, s[0]), Fraction(d.end.t, s[0]) if d.end is not None else None) for p, s in zip(parts, spec)
                               for d in p.iter_all(sc.Direction, include_subclasses=True))
                 if kind == "score":
@@ -215,6 +222,9 @@ def bounded(b):
                 gw = sorted((Fraction(w.start.t, L), w.text) for w in merged.iter_all(sc.Words))
                 gr = sorted((Fraction(r.start.t, L), Fraction(r.end.t - r.start.t, L)) for r in merged.iter_all(sc.Rest))
                 b.case("merge/rests_and_non_structural_elements_at_the_same_musical_time", gw == words and gr == rests, case, "words %r rests %r" % (gw, gr))
+                grm = sorted(((cls.__name__, Fraction(o.start.t, L)) for cls in (sc.Segno, sc.ToCoda, sc.DalSegno, sc.Coda) for o in merged.iter_all(cls)), key=repr)
+                b.case("merge/rests_and_non_structural_elements_at_the_same_musical_time", grm == roadmap, dict(case, elements="segno, to coda, dal segno, coda"),
+                       "road-map marks in the merged part %r, in the parts %r" % (grm, roadmap))
                 gd = sorted(((type(d).__name__, d.text, Fraction(d.start.t, L), Fraction(d.end.t, L) if d.end is not None else None) for d in merged.iter_all(sc.Direction, include_subclasses=True)),
                             key=repr)
                 b.case("merge/directions_once_each_at_the_same_musical_time", gd == sorted(dirs, key=repr), case,
